@@ -88,7 +88,7 @@ CLAIMED = {
     "C02": (
         "proof",
         "Coq proofs on the stream / inline post-processing / push models (all token lists) + whole-pipeline differential correspondence + executable well-formedness predicate on implementation streams",
-        "Block half PROVED on the model for EVERY source, env and configuration (and any value of the opaque dependencies): what ParserBlock.parse appends to the token list is a balanced segment at depth 0 - openers and closers pair up in nested fashion, every level is the running depth, nesting sums to zero, the state level returns to 0 (C02_block_stream_balanced, C02_nested_tokenize_balanced, C02_balanced_levels); the proof covers all 11 block rules incl. recursive containers, table bodies, terminator chains, after-the-fact map / hidden updates, the line loop and the recursion on container depth. Stream theorems for ALL token lists: fragments_join leaves levels equal to depth and no adjacent text tokens (C02_fragments_join_wf), text_join leaves no text_special placeholder (C02_text_join_no_special), StateBlock.push assigns level = depth (C02_block_push_level), a tree that builds flattens back to the identical stream (C02_tree_roundtrip). That every inline rule pushes balanced segments (and open/close pairing by type and tag) is not yet a theorem: it is carried each run by the whole-pipeline correspondence (model tokens = implementation tokens) and by the well-formedness predicate (nesting balance, level = depth, open/close pairing by type/tag/markup, inline children only on inline tokens, tree constructibility) evaluated on ~2000 (quick) implementation streams under random rule subsets, maxNesting cut-offs and typographer settings.",
+        "Block half PROVED on the model for EVERY source, env and configuration (and any value of the opaque dependencies): what ParserBlock.parse appends to the token list is a balanced segment at depth 0 - openers and closers pair up in nested fashion, every level is the running depth, nesting sums to zero, the state level returns to 0 (C02_block_stream_balanced, C02_nested_tokenize_balanced, C02_balanced_levels); the proof covers all 11 block rules incl. recursive containers, table bodies, terminator chains, after-the-fact map / hidden updates, the line loop and the recursion on container depth. Inline half, tokenizer phase PROVED for every source / configuration: ParserInline.tokenize at any nesting depth returns the level to where it was and appends a segment in which link_open / link_close pair up like brackets (matching kind) around nesting-0 tokens - all 12 tokenizer rules, label / image recursion, skipToken, pending-text flushing (C02_inline_tokenize_nested); fragments_join keeps that nesting (C02_fragments_join_keeps_nesting), so the whole inline parser's output is nested whenever the emphasis / strikethrough post-rules are not in the chain (C02_inline_parse_nested). NOT proved: that the pairs those two post-rules create (em, strong, s) never cross - that needs the non-crossing invariant of balance_pairs - decided by the predicate on implementation streams and the correspondence. Stream theorems for ALL token lists: fragments_join leaves levels equal to depth and no adjacent text tokens (C02_fragments_join_wf), text_join leaves no text_special placeholder (C02_text_join_no_special), StateBlock.push assigns level = depth (C02_block_push_level), a tree that builds flattens back to the identical stream (C02_tree_roundtrip). That every inline rule pushes balanced segments (and open/close pairing by type and tag) is not yet a theorem: it is carried each run by the whole-pipeline correspondence (model tokens = implementation tokens) and by the well-formedness predicate (nesting balance, level = depth, open/close pairing by type/tag/markup, inline children only on inline tokens, tree constructibility) evaluated on ~2000 (quick) implementation streams under random rule subsets, maxNesting cut-offs and typographer settings.",
         "Trusted: Coq kernel; models tied by sampled correspondence; inline producer side and type/tag pairing by exploration (partial).",
         "DESIGN.md §3 C02",
     ),
